@@ -43,7 +43,7 @@ from xmlschema.translation import gettext as _
 from xmlschema.utils.decoding import Empty
 from xmlschema.utils.etree import prune_etree, is_etree_element, \
     iter_schema_declarations, iter_schema_open_content
-from xmlschema.utils.qnames import get_namespace, get_namespace_ext
+from xmlschema.utils.qnames import get_namespace_ext
 from xmlschema.resources import XMLResource
 from xmlschema.arguments import check_validation_mode
 from xmlschema.converters import XMLSchemaConverter, ConverterType
@@ -1411,23 +1411,24 @@ class XMLSchemaBase(XsdValidator, ElementPathMixin[Union[SchemaType, XsdElement]
                     if nm.XSI_TYPE in elem.attrib:
                         xsd_element = self.builders.create_element(elem.tag, self)
                     elif elem is not resource.root and ancestors:
-                        # Maybe matched by a wildcard, of a namespace that is loaded on demand
-                        namespace = get_namespace(elem.tag)
-                        if not namespace or namespace in self.maps.namespaces or \
-                                len(xsd_ancestors) != len(ancestors):
+                        # Maybe matched by a wildcard of the parent's content model, that
+                        # processes it like in a full validation (a namespace loaded on
+                        # demand, the lax assessment of an element that is not declared)
+                        if len(xsd_ancestors) != len(ancestors):
                             continue
                         parent = xsd_ancestors[-1]
                         if not isinstance(parent, XsdElement):
                             continue
                         group = parent.type.model_group
-                        if group is None or \
-                                not any(isinstance(e, XsdAnyElement) and e.is_matching(elem.tag)
-                                        and e.process_contents != 'skip'
-                                        for e in group.iter_elements()) or \
-                                not self.maps.loader.load_namespace(namespace) or \
-                                elem.tag not in self.maps.elements:
+                        if group is None:
                             continue
-                        xsd_element = self.maps.elements[elem.tag]
+                        for e in group.iter_elements():
+                            if isinstance(e, XsdAnyElement) and e.is_matching(elem.tag) \
+                                    and e.process_contents != 'skip':
+                                xsd_element = e
+                                break
+                        else:
+                            continue
                     else:
                         yield context.missing_element_error(
                             validation, self, elem, path, schema_path
